@@ -252,6 +252,18 @@ class FullLib(Lib):
             seq = args[0]
             if not (isinstance(seq, VSymSeq) and seq.what == "lines"):
                 raise Undecided(f"writelines of {seq}")
+            if h.f["mode"] == "w" and ctx.implied(h.f["pos"] == 0) and \
+                    ctx.implied(T.as_text(self.fs_get(it, h.f["loc"])) == T.EMPTY):
+                # a file just created / truncated by open(.., "w"): its content becomes the lines
+                self.maybe_fault(it, "write", h.f["loc"])
+                loc = h.f["loc"]
+                old = self.fs_get(it, loc)
+                for ln in seq.info.get("appended", []):
+                    ctx.oblige("refs/line-is-wsfree", T.wsfree(ln), props=("C18", "C05"))
+                self.fs_set(it, loc, T.LinesF(seq.info["m"]))
+                h.f["pos"] = ctx.fresh("pos", T.I)
+                ctx.event("write", loc=loc, old=old, new=T.LinesF(seq.info["m"]))
+                return NONE
             if not (h.f["mode"] == "r+" and ctx.implied(h.f["pos"] == 0)):
                 raise Undecided("writelines not at offset 0 of an r+ handle")
             self.maybe_fault(it, "write", h.f["loc"])
@@ -819,12 +831,17 @@ class FullLib(Lib):
             raise Undecided(f"Path({first})")
         return self.join(it, base, list(parts[1:])).with_(pathobj=True)
 
-    def c_hashlib_new(self, it, alg):
+    def c_hashlib_new(self, it, alg, data=None, **kw):
         a = self.need_str(it, alg, "TypeError")
         ok = z3.Or(*[a.term == z3.StringVal(x) for x in T.SUPPORTED12])
         if not it.ctx.branch(ok):
             it.raise_("ValueError")
         h = VObj("hasher", alg=a.term, state=T.EMPTY)
+        data = kw.get("data", data)
+        if data is not None and not isinstance(data, VNone):
+            if not isinstance(data, VBytes):      # hashlib.new(name, data): data must be bytes-like
+                it.raise_("TypeError")
+            h.f["state"] = data.term
         return h
 
     def c_atexit_register(self, it, f):
@@ -916,6 +933,14 @@ class FullLib(Lib):
             if obj.kind == "frozenset" and name in ("append", "extend", "add"):
                 it.raise_("AttributeError")
             raise Undecided(f"list.{name}")
+        if isinstance(obj, VSymSeq) and obj.what == "lines" and name == "append":
+            line = _line_of(self.need_str(it, args[0], "TypeError").term)
+            if line is None or not obj.info.get("raw"):
+                raise Undecided("append of something that is not <identifier> + newline to the lines of a file")
+            m = obj.info["m"]
+            obj.info["m"] = z3.Store(m, line, z3.Select(m, line) + 1)
+            obj.info["appended"] = obj.info.get("appended", []) + [line]
+            return NONE
         if isinstance(obj, VDict):
             if name == "get":
                 r = self.dict_lookup(it, obj, args[0])
